@@ -1,5 +1,5 @@
 (* Run/Main.v — dispatch on the family code (first integer of a case). *)
-From FB Require Import Sem.Base Run.Codec Run.Api Run.Rf Run.Adapters Run.Tokio Run.TokioAdapters.
+From FB Require Import Sem.Base Run.Codec Run.Api Run.Rf Run.Adapters Run.Tokio Run.TokioAdapters Run.Srv.
 Open Scope Z_scope.
 Definition run_case (chk : bool) (l : list Z) : list Z :=
   match l with
@@ -11,6 +11,8 @@ Definition run_case (chk : bool) (l : list Z) : list Z :=
       else if fam =? 3 then run_rf chk t
       else if fam =? 4 then run_chain t
       else if fam =? 5 then run_take chk t
+      else if fam =? 6 then run_srv chk t
+      else if fam =? 26 then run_asrv chk t
       else if fam =? 20 then run_apoll chk t
       else if fam =? 21 then run_apollstep chk t
       else if fam =? 22 then run_arf chk t
